@@ -79,6 +79,13 @@ def check_iter(inp):
       return f'skip_shuffle window {w.tolist()} is not the original order'
   if skip and stream.tolist() != [i % n for i in range(len(stream))]:
     return 'skip_shuffle stream is not cyclic'
+  if seed is not None and k >= 2:
+    # two live iterators of the SAME view (zip(view, view)): each must still see the standalone stream
+    inter = [(a['x'].copy(), c['x'].copy()) for a, c in zip(view, view)]
+    for j, (a, c) in enumerate(inter):
+      if not (np.array_equal(a, first[j]) and np.array_equal(c, first[j])):
+        return (f'interleaved iteration of one view (zip(view, view)), batch {j}: {a.tolist()} / {c.tolist()} instead of '
+                f'{first[j].tolist()}: iterators of a view share state')
   if seed is not None:
     second = [x['x'].copy() for x in view]
     if len(second) != len(first) or any(not np.array_equal(a, c) for a, c in zip(first, second)):
